@@ -2,6 +2,7 @@ package main
 
 import (
 	"fmt"
+	"math/big"
 	"time"
 )
 
@@ -11,7 +12,7 @@ func init() { register("C12", "Run.C12", genC12) }
 // outcome classes, both purposes, both entry points; plus chains invalid for the purpose and the empty chain
 func genC12(tier string, rng *RNG, w *CaseWriter) {
 	w.ShardSize = 200
-	oAl := []ocspBehav{oGood, oRevoked, oUnknown, oErr, oBadURL, oStale}
+	oAl := []ocspBehav{oGood, oRevoked, oUnknown, oErr, oBadURL, oStale, {Kind: "http500"}, {Kind: "garbage"}, {Kind: "truncated"}, {Kind: "canned-trylater"}}
 	cAl := []dpBehav{dpByName("clean"), dpByName("lists-cert"), dpByName("fetch-fail"), dpByName("expired"), dpByName("delta-clean"), dpByName("lists-hold")}
 	randPlan := func() srcPlan {
 		var p srcPlan
@@ -43,8 +44,9 @@ func genC12(tier string, rng *RNG, w *CaseWriter) {
 				st = stRef
 			}
 			revRootNamesSources = k%5 == 3
+			revSelfIssuedIntermediate = k%7 == 4
 			emitRev(w, buildPlanCase(k%3%2, purp, plans, st, k%9 == 2), true, "valid")
-			revRootNamesSources = false
+			revRootNamesSources, revSelfIssuedIntermediate = false, false
 			if n == 1 && k > 6 {
 				break
 			}
@@ -60,6 +62,33 @@ func genC12(tier string, rng *RNG, w *CaseWriter) {
 			rc := buildPlanCase(0, "cs", plans, time.Time{}, k%2 == 0)
 			rc.Cancel = "before"
 			emitRev(w, rc, true, "cancelled-before")
+		}
+	}
+	// one validator object, two chains: a valid chain, then a forged one with the same issuer names and serial numbers at
+	// every position (a certificate re-signed by a key that is not its issuer's): the second call must see an invalid chain
+	for n := 2; n <= 4; n++ {
+		for pos := 0; pos < n-1; pos++ {
+			mk := func(forged bool) *builtChain {
+				p := basePlan(n, "cs", "ec256b")
+				for i := range p.certs {
+					p.certs[i].spec.Serial = big.NewInt(int64(770000 + 10*n + i))
+				}
+				if forged {
+					p.certs[pos].signKey = "ec256c"
+				}
+				return p.build()
+			}
+			good, bad := mk(false), mk(true)
+			for _, warm := range []bool{true, false} {
+				rc := &revCase{Entry: 0, Purpose: "cs", Chain: &revChain{certs: bad.certs, slots: make([]certSlots, n-1)}, Labels: []string{"validator-reuse", fmt.Sprintf("forged-pos=%d warm=%v", pos, warm)}}
+				if warm {
+					rc.WarmChain = good.xs
+				}
+				emitRev(w, rc, true, "validator-reuse")
+			}
+			// and the other way round: the forged chain first must not poison the valid one
+			rc := &revCase{Entry: 0, Purpose: "cs", Chain: &revChain{certs: good.certs, slots: make([]certSlots, n-1)}, WarmChain: bad.xs, Labels: []string{"validator-reuse", "valid-after-forged"}}
+			emitRev(w, rc, true, "validator-reuse")
 		}
 	}
 	// systematic: every single-source outcome at every position of a length-4 chain
